@@ -357,7 +357,13 @@ pub fn gen_positions(rng: &mut Rng, text: &str, prog: &gen_prog::Prog, offs: &[u
 pub fn gen_predefined_name_cases(rng: &mut Rng, out: &mut Vec<String>) {
     const BUILTINS: &[&str] = &["printi", "printc", "readi", "readc", "exit", "time", "clearAll", "setPixel", "drawLine", "drawCircle"];
     let b = *rng.pick(BUILTINS);
-    let text = match rng.below(6) {
+    let text = match rng.below(10) {
+        // a USER procedure / type declared twice with different shapes: the table keeps the first entry, the
+        // handlers walk the tokens of the second declaration
+        6 => "proc p(a: int) { var x: int; x := a; }  proc p() { x := 1; }  proc main() {}".to_string(),
+        7 => "proc p() { }\nproc p(ref k: int, m: int) {\n  var y: int;\n  var z: array [2] of int;\n  y := k + m; z[0] := y;\n}\nproc main() { p(); }\n".to_string(),
+        8 => "type t = array [4] of array [2] of int;\ntype t = int;\nproc main() { var v: t; v[1][0] := 1; }\nproc main() { var w: t; w := 2; }\n".to_string(),
+        9 => "proc q(a: int, b: int, c: int) { var a: int; var d: int; d := a + b + c; }\nproc q(d: int) { d := 1; q(d, d, d); }\nproc main() { q(1); }".to_string(),
         0 => format!("proc {b}(i: int) {{\n  i := 1;\n  {b}(i);\n}}\nproc main() {{\n  {b}(2);\n}}\n"),
         1 => format!("// doc\nproc {b}(ref a: int, k: int) {{ var {b}: int; a := k + {b}; }}\nproc main() {{ }}\n"),
         2 => format!("type {b} = array [2] of int;\nproc main() {{ var v: {b}; v[0] := 1; }}\n"),
@@ -394,6 +400,15 @@ pub fn gen_predefined_name_cases(rng: &mut Rng, out: &mut Vec<String>) {
 
 pub fn gen_feature_cases(rng: &mut Rng, n: usize, ops: &[&str], broken_pct: usize, out: &mut Vec<String>) {
     for i in 0..n {
+        if i % 25 == 13 {
+            // redeclared predefined / user names: the handlers of this run on such a document
+            let mut tmp = vec![];
+            gen_predefined_name_cases(rng, &mut tmp);
+            out.extend(tmp.into_iter().filter(|l| {
+                let op = l.split(' ').next().unwrap_or("");
+                op == "NEW" || ops.contains(&op)
+            }));
+        }
         let prog = gen_prog::gen(rng, 3, 4, 3);
         let mut toks = prog.toks.clone();
         let mut broken = rng.below(100) < broken_pct;
@@ -441,6 +456,14 @@ pub fn gen_feature_cases(rng: &mut Rng, n: usize, ops: &[&str], broken_pct: usiz
                     out.push(format!("{} {}", op, h));
                     if spec {
                         out.push(format!("SPEC{} {}", op, h));
+                    }
+                    if spec && rng.chance(1, 6) {
+                        // the same program with a last line that is a comment without a line terminator (and
+                        // talks about procedures): still one token, still no procedure
+                        let tail = *rng.pick(&["// end of proc main", "// proc p() { }", "//", "// type t = int; proc"]);
+                        let t2 = format!("{}\n{}", text.trim_end(), tail);
+                        out.push(format!("{} {}", op, hex_str(&t2)));
+                        out.push(format!("SPEC{} {}", op, hex_str(&t2)));
                     }
                     if *op == "SEM" {
                         out.push(format!("JUDGESEM {}", h));
